@@ -45,8 +45,8 @@ type typedVal struct {
 type varsOut struct {
 	// decode | tocore | invalidvars | ok | panic | compile (harness bug)
 	Stage string              `json:"stage"`
-	Vars  map[string]string   `json:"vars,omitempty"`
-	Typed map[string]typedVal `json:"typed,omitempty"`
+	Vars  map[string]string   `json:"vars"`
+	Typed map[string]typedVal `json:"typed"`
 	Panic string              `json:"panic,omitempty"`
 	Err   string              `json:"err,omitempty"`
 }
@@ -288,36 +288,40 @@ func varsCorpus() []varsIn {
 }
 
 func init() {
-	gen.Register("vars", func(c *gen.Ctx) error {
-		if c.Replay != "" {
-			ins, err := c.ReplayInputs("vars")
-			if err != nil {
-				return err
-			}
-			for _, raw := range ins {
-				var in varsIn
-				if err := json.Unmarshal(raw, &in); err != nil {
+	// "vars" carries the C38 predicate, "vars36" the C36 one (same generator).
+	for _, name := range []string{"vars", "vars36"} {
+		name := name
+		gen.Register(name, func(c *gen.Ctx) error {
+			if c.Replay != "" {
+				ins, err := c.ReplayInputs(name)
+				if err != nil {
 					return err
 				}
-				if err := c.Emit("vars", in, runVars(in)); err != nil {
+				for _, raw := range ins {
+					var in varsIn
+					if err := json.Unmarshal(raw, &in); err != nil {
+						return err
+					}
+					if err := c.Emit(name, in, runVars(in)); err != nil {
+						return err
+					}
+				}
+				return nil
+			}
+			for _, in := range varsCorpus() {
+				if err := c.Emit(name, in, runVars(in)); err != nil {
+					return err
+				}
+			}
+			for i := 0; i < c.N; i++ {
+				in := genVarsIn(c)
+				if err := c.Emit(name, in, runVars(in)); err != nil {
 					return err
 				}
 			}
 			return nil
-		}
-		for _, in := range varsCorpus() {
-			if err := c.Emit("vars", in, runVars(in)); err != nil {
-				return err
-			}
-		}
-		for i := 0; i < c.N; i++ {
-			in := genVarsIn(c)
-			if err := c.Emit("vars", in, runVars(in)); err != nil {
-				return err
-			}
-		}
-		return nil
-	})
+		})
+	}
 }
 
 var _ = sort.Strings
